@@ -13,10 +13,10 @@ package eng
 
 import (
 	"fmt"
-	"strings"
 	"go/constant"
 	"go/token"
 	"go/types"
+	"strings"
 
 	"golang.org/x/tools/go/ssa"
 )
